@@ -177,13 +177,24 @@ func (h *harness) playAll(sessions []Session) []*outcome {
 				if i >= len(sessions) {
 					return
 				}
+				if atomic.LoadInt64(&timeoutSpent) > int64(timeoutBudget) {
+					continue // enough has gone wrong already: the rest of the batch is not played
+				}
 				out[i] = h.playOne(w, sessions[i], h.deadline)
 			}
 		}(w)
 	}
 	wg.Wait()
-	return out
+	played := out[:0]
+	for _, o := range out {
+		if o != nil {
+			played = append(played, o)
+		}
+	}
+	return played
 }
+
+const timeoutBudget = 45 * time.Second
 
 func (h *harness) playOne(w *world, s Session, deadline time.Duration) (o *outcome) {
 	o = &outcome{sess: s}
@@ -274,7 +285,7 @@ func (h *harness) shrink(first *outcome) *outcome {
 	t0 := time.Now()
 	for changed := true; changed && budget > 0; {
 		changed = false
-		for i := len(cur.sess.Steps) - 1; i >= 0 && budget > 0 && time.Since(t0) < 20*time.Second; i-- {
+		for i := len(cur.sess.Steps) - 1; i >= 0 && budget > 0 && time.Since(t0) < 15*time.Second; i-- {
 			cand := cur.sess
 			cand.Steps = append(append([]Step{}, cur.sess.Steps[:i]...), cur.sess.Steps[i+1:]...)
 			budget--
@@ -285,7 +296,7 @@ func (h *harness) shrink(first *outcome) *outcome {
 	}
 	if cur != first {
 		// confirm with the full deadline
-		if o := h.evalOne(cur.sess, h.deadline); sameFailure(o, first) {
+		if o := h.evalOne(cur.sess, h.deadline/2); sameFailure(o, first) {
 			return o
 		}
 		return first
@@ -303,9 +314,12 @@ type replayDoc struct {
 
 func (h *harness) report(o *outcome) {
 	h.failures++
-	sh := h.shrink(o)
+	sh := o
+	if h.failures <= 3 {
+		sh = h.shrink(o)
+	}
 	h.run.Violate(sh.kind, sh.sess.String()+": "+sh.what, "", sh.kind == "correspondence", replayDoc{Session: sh.sess, Observed: sh.obs, Inputs: sh.line, Reply: sh.reply, Oracle: sh.oracle})
-	if h.failures >= 6 || atomic.LoadInt64(&timeoutSpent) > int64(60*time.Second) {
+	if h.failures >= 6 || atomic.LoadInt64(&timeoutSpent) > int64(timeoutBudget) {
 		h.stop = true
 	}
 }
